@@ -52,6 +52,9 @@ def rule_closed_set(ctx, facts, prefix="C07-R1"):
         else:
             roles[role] = roles.get(role, 0) + 1
             ctx.ok(prefix, "mutating call `%s` has role %s (path provenance checked)" % (c.name, role), c.where())
+    for fn, rs in sorted(edit.wrappers(facts).items()):
+        ctx.check(len(rs) == 1 and rs[0] != "unknown", prefix, "composite-wrapper|" + fn,
+                  "helper `%s` performs one kind of storage step (%s), so the path rules can treat a call to it as that step" % (fn.split("::")[-1], "+".join(rs)), "")
     for role in ("scratch-create", "scratch-write", "publish", "scratch-unlink"):
         ctx.check(roles.get(role, 0) >= 1, prefix, "missing-role|" + role,
                   "the protocol's %s step exists (%d site(s))" % (role, roles.get(role, 0)), "")
@@ -119,6 +122,28 @@ def rule_complete_before_publish(ctx, facts, prefix="C07"):
                 ctx.check(bool(good), prefix + "-R3", "create-err", "a failed File::create makes AsyncTempFile::new return Err", t.where(bb))
 
 
+def rule_no_retry(ctx, facts, prefix="C07-R3"):
+    """a failed scratch write is final: async-std's File keeps the partially drained cache, so a second
+    write_all of the same chunk duplicates bytes that then get published. From the Err arm of every
+    direct scratch write no further scratch write may be reachable, in the insert routine and in every
+    local helper that writes."""
+    n = 0
+    for (b, c) in edit.mutating_sites(facts):
+        role, _ = edit.classify_site(facts, b, c)
+        if role != "scratch-write":
+            continue
+        prov = Prov(b, stop_at=edit.STOPS)
+        others = [x for (bb2, x) in edit.mutating_sites(facts) if bb2.id == b.id and edit.classify_site(facts, bb2, x)[0] == "scratch-write"]
+        for (sb, err_arm, ok_arm) in edit.examining_switches(b, prov, c):
+            n += 1
+            region = cfg.reach_t(b, err_arm)
+            again = [x for x in others if x.bb in region]
+            ctx.check(not again, prefix, "retry-after-failed-write|%s" % b.id.split("::")[-2 if b.id.endswith("}") else -1],
+                      "after a failed scratch write nothing more is written to the scratch file (a retry would duplicate the bytes async-std already buffered)",
+                      b.where(sb))
+    ctx.ok(prefix, "scratch write results examined where they are produced: %d (results that are returned to the caller are examined there, rule unexamined|…)" % n, "")
+
+
 def _ord(lst, c):
     return str(sorted(x.bb for x in lst).index(c.bb) + 1)
 
@@ -144,6 +169,7 @@ def run(ctx):
     facts = ctx.bin
     roles = rule_closed_set(ctx, facts)
     rule_complete_before_publish(ctx, facts)
+    rule_no_retry(ctx, facts)
     rule_no_leak(ctx, facts)
     rule_no_self_termination(ctx, facts, "C07-R4")
     ctx.assume("POSIX rename(2) atomically replaces the destination; fsync makes the scratch contents durable")
